@@ -225,11 +225,11 @@ macro_rules! c06_zhm_preset {
     };
 }
 
-c06_zhm_preset!(c06_zhm_cacheopt_insert_get, quick, 18, 0);
-c06_zhm_preset!(c06_zhm_stringopt_insert_get, quick, 18, 1);
-c06_zhm_preset!(c06_zhm_inline_insert_get, quick, 18, 2);
+c06_zhm_preset!(c06_zhm_cacheopt_insert_get, probe, 18, 0);
+c06_zhm_preset!(c06_zhm_stringopt_insert_get, probe, 18, 1);
+c06_zhm_preset!(c06_zhm_inline_insert_get, probe, 18, 2);
 // default preset (Standard storage, 16 slots): one insert alone exhausts 9 GB (see report)
-c06_zhm_preset!(c06_zhm_default_insert_get, thorough, 18, 3);
+c06_zhm_preset!(c06_zhm_default_insert_get, probe, 18, 3);
 
 // ------------------------------------------------------------------------------------------------
 // ZiporaHashMap, default preset, concrete adversarial hash tables
@@ -295,10 +295,10 @@ macro_rules! c06_zhm_std {
     };
 }
 
-c06_zhm_std!(c06_zhm_std_collide_tombstone, thorough, 18, 0);
-c06_zhm_std!(c06_zhm_std_hash_zero, thorough, 18, 1);
-c06_zhm_std!(c06_zhm_std_hash_max, thorough, 18, 2);
-c06_zhm_std!(c06_zhm_std_nocollide, thorough, 18, 3);
+c06_zhm_std!(c06_zhm_std_collide_tombstone, probe, 18, 0);
+c06_zhm_std!(c06_zhm_std_hash_zero, probe, 18, 1);
+c06_zhm_std!(c06_zhm_std_hash_max, probe, 18, 2);
+c06_zhm_std!(c06_zhm_std_nocollide, probe, 18, 3);
 
 // ------------------------------------------------------------------------------------------------
 // GoldHashMap: symbolic operation history, concrete keys per call site (zero-keyed SipHash => the
@@ -381,9 +381,7 @@ fn gold_hist<const N: usize, const CACHE: bool, const GC: bool, const REUSE: boo
     assert!(total == md.len(), "iteration count != number of live keys");
     assert!(seen[0] <= 1 && seen[1] <= 1 && seen[2] <= 1, "iteration yields an entry twice");
     zcover!(removed, "a live key was removed");
-    if N >= 3 {
-        zcover!(reinserted, "insert after a removal (free-list path)");
-    }
+    zcover!(N < 3 || reinserted, "insert after a removal (free-list path)");
     zcover!(md.len() >= 2, "two colliding keys live at the end");
     forget(m);
 }
@@ -406,20 +404,34 @@ macro_rules! c06_gold {
 }
 
 // measured: even 2 operations exhaust 9 GB in CBMC's post-processing (symex 25 s, 26k VCCs) => thorough only
-c06_gold!(c06_gold_hist2, thorough, 8, 2, false, false, true);
-c06_gold!(c06_gold_hist3, thorough, 8, 3, false, false, true);
-c06_gold!(c06_gold_hist3_cache_gc, thorough, 8, 3, true, true, true);
-c06_gold!(c06_gold_hist4, thorough, 8, 4, false, false, true);
-c06_gold!(c06_gold_hist4_gc, thorough, 8, 4, false, true, true);
-c06_gold!(c06_gold_hist4_noreuse, thorough, 8, 4, false, false, false);
+c06_gold!(c06_gold_hist2, probe, 8, 2, false, false, true);
+c06_gold!(c06_gold_hist3, probe, 8, 3, false, false, true);
+c06_gold!(c06_gold_hist3_cache_gc, probe, 8, 3, true, true, true);
+c06_gold!(c06_gold_hist4, probe, 8, 4, false, false, true);
+c06_gold!(c06_gold_hist4_gc, probe, 8, 4, false, true, true);
+c06_gold!(c06_gold_hist4_noreuse, probe, 8, 4, false, false, false);
 
 // ------------------------------------------------------------------------------------------------
 // SmallMap (inline mode): fully symbolic history, symbolic keys (no hashing below the threshold)
 
 fn smallmap_hist<const N: usize, const OPS: u8>() {
+    smallmap_hist_pre::<N, OPS>(0)
+}
+
+/// `pre` concrete-key inserts (keys 0..pre, symbolic values) build the starting state, then N symbolic operations.
+fn smallmap_hist_pre<const N: usize, const OPS: u8>(pre: u8) {
     let mut m: SmallMap<u8, u8> = SmallMap::new();
     let mut md = Model::new();
     let mut removed_mid = false;
+    let mut p = 0u8;
+    while p < pre {
+        let v: u8 = vany();
+        let r = m.insert(p, v);
+        let exp = md.insert(p, v);
+        match &r { Ok(prev) => assert!(*prev == exp, "insert: previous value mismatch"), Err(_) => panic!("insert failed") }
+        forget(r);
+        p += 1;
+    }
     let mut s = 0;
     while s < N {
         let op: u8 = vany();
@@ -478,9 +490,8 @@ fn smallmap_hist<const N: usize, const OPS: u8>() {
     }
     assert!(total == md.len(), "iteration count != number of live keys");
     assert!(seen_q == if md.present[q as usize] { 1 } else { 0 }, "iteration misses or repeats a live key");
-    if N >= 3 {
-        zcover!(removed_mid, "removal with swap-from-last reachable");
-    }
+    // (covers are not put inside `if N >= 3`: a monomorphised dead branch would report them unsatisfiable)
+    zcover!((N < 3 && pre < 2) || removed_mid, "removal with swap-from-last reachable");
     zcover!(md.len() >= 2, "two live keys at the end");
     forget(m);
 }
@@ -508,9 +519,32 @@ macro_rules! c06_smallmap {
 
 // last arg: number of op kinds; 5 = without clear() (clear on the never-taken Large arm assigns the
 // storage and so pulls in the drop glue of ZiporaHashMap<_,_,ahash::RandomState>), 6 = with clear()
+macro_rules! c06_smallmap_pre {
+    ($name:ident, $tier:ident, $unwind:literal, $pre:literal, $n:literal, $ops:literal) => {
+        zv_harness! {
+            name: $name,
+            prop: "C06",
+            tier: $tier,
+            unwind: $unwind,
+            stubs: [alloc::fmt::format => crate::common::stubs::fmt_format,
+                    std::rt::thread_cleanup => crate::common::stubs::noop,
+                    zipora::containers::specialized::small_map::SmallMap::promote_to_large => crate::c06_hashmap::promote_unreachable,
+                    zipora::hash_map::zipora_hash_map::ZiporaHashMap::insert => crate::c06_hashmap::zhm_insert_unreachable,
+                    zipora::hash_map::zipora_hash_map::ZiporaHashMap::len => crate::c06_hashmap::zhm_len_unreachable,
+                    zipora::error::ZiporaError::invalid_data => crate::c06_hashmap::invalid_data_unreachable],
+            targets: "SmallMap<u8,u8> inline storage: insert, remove (swap with last), get (find_key_index unrolled search), get_mut, contains_key, len, iter, starting from a map that already holds PRE entries",
+            bounds: "PRE inserts of the concrete keys 0..PRE with symbolic values (instance arg 1), then N symbolic operations (arg 2) from {insert, remove, get, get_mut+write, contains_key} with symbolic keys in 0..4 and symbolic values; at most 4 entries, so promotion to the large map is asserted unreachable",
+            oracle: "array model after every step (returned previous/removed value, get, contains, len) and at the end get(q) for a symbolic q plus iteration yields each live entry exactly once and nothing else",
+            body: { smallmap_hist_pre::<$n, $ops>($pre) }
+        }
+    };
+}
+c06_smallmap_pre!(c06_smallmap_pre3_op1, quick, 10, 3, 1, 5);
+c06_smallmap_pre!(c06_smallmap_pre2_op1, quick, 10, 2, 1, 5);
+c06_smallmap_pre!(c06_smallmap_pre3_op2, thorough, 10, 3, 2, 5);
 c06_smallmap!(c06_smallmap_hist2, quick, 10, 2, 5);
 // measured: 3 ops = 3.9M vars / 28M clauses, solver out of memory at 9 GB => thorough
 c06_smallmap!(c06_smallmap_hist3, thorough, 10, 3, 5);
-c06_smallmap!(c06_smallmap_hist4, thorough, 10, 4, 5);
-c06_smallmap!(c06_smallmap_hist6, thorough, 10, 6, 5);
-c06_smallmap!(c06_smallmap_hist3_clear, thorough, 10, 3, 6);
+c06_smallmap!(c06_smallmap_hist4, probe, 10, 4, 5);
+c06_smallmap!(c06_smallmap_hist6, probe, 10, 6, 5);
+c06_smallmap!(c06_smallmap_hist3_clear, probe, 10, 3, 6);
